@@ -71,6 +71,10 @@ CLAIMED = {
    text="Internal ordered collections against list models: the real common/orderedmap (Set/Delete/Get/Clear/Contains/Len, Oldest..Newest iteration order, ForAnyKey/ForAllKeys/KeySetIsDisjointFrom, from the zero value and from New()), common/persistent OrderedSet chains (Add/Contains/IsEmpty/ForEach order over up to 3 cloned levels) and common/bimap (Insert/Delete/DeleteInverse/Get/GetInverse stay a bijection) for every sequence of <=3 (thorough 4) operations with symbolic keys and values; no operation crashes.",
    note="Sequences of <=3 (4) operations; Go's builtin map is modelled as an association list with symbolic key equality. The interval tree (draws from global math/rand, no native replay), 'few thousand operations' and key types other than integers are outside.",
    design="3 C51"),
+ "C37": dict(
+   text="Lexer kernel: the real lexer.Lex and the whole token stream (Next() to EOF) on every byte string of <=2 (thorough 3) bytes - all byte values incl. invalid UTF-8 - alone and after fixed prefixes that put the lexer into its modes (string, string template, block comment, after a leading 0; thorough: line comment, fraction, arrow), plus every 3 (4) bytes >= 0x80 alone / in a line comment / string / block comment: no crash and no internal error, every token and the EOF position inside the input, tokens contiguous in order and covering the input (unless lexing stopped at an error token), lines match offsets, columns match offsets in one convention (bytes or characters) for the whole stream; and a pooled lexer that lexed another text before (6 texts leaving mode/bracket/position state behind) yields exactly the tokens of a fresh lexer.",
+   note="Part of C37: the lexer only; parser and checker totality/positions are outside (a symbolic AST is out of reach). Bounds: <=2 (3) free bytes per harness, prefixes listed in harness/C37/lexer.go; sync.Pool modelled as 'Get returns the last Put object, else New()'; unicode/utf8.DecodeRune runs from source. Two known findings (unterminated block comment content in no token; column drift after an empty string token), three defects fixed.",
+   design="3 C37"),
  "C46": dict(
    text="Bounded symbolic model checking of the real rlp.ReadSize/DecodeString/DecodeList SSA: for every input of the stated lengths (all byte values, incl. 8-byte length prefixes up to 2^64-1) an SMT solver shows no run-time panic is reachable and acceptance/result equal an independent reference decoder; every feasible path is also replayed natively.",
    note="Bounds: input length <= 10 (quick) / 14 (thorough) for strings and headers, <= 4 / 5 for unconstrained lists plus lists with a long-form first item up to 10 / 12 bytes. Trusted: go/ssa, my SSA->SMT executor (validated per path against the native build), z3/cvc5. The Cadence wrappers RLPDecodeString/RLPDecodeList are checked too (accept iff the library accepts and consumed all bytes, user error otherwise, same payload/items) with byte arrays as plain element lists symbolically and real atree-backed arrays natively, inputs <= 6/4 bytes.",
@@ -98,7 +102,6 @@ NA_REASON = {
  "C33": "outcome determinism across processes and map seeds",
  "C34": "VM vs interpreter equivalence on whole programs",
  "C36": "schedules / data races; the encoder is sequential",
- "C37": "not built yet (stretch kernel: lexer on <=3 bytes)",
  "C38": "printer round trip AST -> Doc -> text -> parser", "C39": "formatter round trip over ASTs",
  "C41": "JSON codec uses encoding/json and reflection over value graphs",
  "C43": "JSON vs CCF agreement over value graphs",
